@@ -686,18 +686,20 @@ func (g *G) genStmt(o *out, depth int) {
 	case choice < 37: // destructuring
 		g.tag("destructuring")
 		if g.chance(0.5) {
-			a, b := g.newName(), ""
-			g.declare(&gvar{name: a, kind: KInt})
-			b = g.newName()
-			g.declare(&gvar{name: b, kind: KInt})
+			var rhs string
 			switch g.pick(3) {
 			case 0:
-				o.line(a + ", " + b + " := " + g.genArr(ed-1))
+				rhs = g.genArr(ed - 1)
 			case 1:
-				o.line(a + ", " + b + " := [" + g.logWrap(g.genInt(ed-1)) + ", " + g.logWrap(g.genInt(ed-1)) + ", " + g.intLit() + "]")
+				rhs = "[" + g.logWrap(g.genInt(ed-1)) + ", " + g.logWrap(g.genInt(ed-1)) + ", " + g.intLit() + "]"
 			default:
-				o.line(a + ", " + b + " := func() { return " + g.genInt(1) + ", " + g.genInt(1) + " }()")
+				rhs = "func() { return " + g.genInt(1) + ", " + g.genInt(1) + " }()"
 			}
+			a := g.newName()
+			g.declare(&gvar{name: a, kind: KInt})
+			b := g.newName()
+			g.declare(&gvar{name: b, kind: KInt})
+			o.line(a + ", " + b + " := " + rhs)
 		} else {
 			vs := g.visible(KInt, true)
 			if len(vs) >= 2 {
@@ -837,24 +839,26 @@ func (g *G) genLoop(o *out, depth int) {
 		o.ind--
 	case 3:
 		g.tag("forin-array")
+		iter := g.genArr(1)
 		k, v := g.newName(), ""
 		if g.chance(0.5) {
 			g.declare(&gvar{name: k, kind: KInt, ro: true})
 			v = g.newName()
 			g.declare(&gvar{name: v, kind: KInt, ro: true})
-			o.line("for " + k + ", " + v + " in " + g.genArr(1) + " {")
+			o.line("for " + k + ", " + v + " in " + iter + " {")
 		} else {
 			g.declare(&gvar{name: k, kind: KInt, ro: true})
-			o.line("for " + k + " in " + g.genArr(1) + " {")
+			o.line("for " + k + " in " + iter + " {")
 		}
 	default:
 		g.tag("forin-other")
+		iterVal := g.genInt(1)
 		k := g.newName()
 		g.declare(&gvar{name: k, kind: KStr, ro: true})
 		v := g.newName()
 		g.declare(&gvar{name: v, kind: KInt, ro: true})
 		if g.chance(0.5) {
-			o.line("for " + k + ", " + v + " in {only: " + g.genInt(1) + "} {")
+			o.line("for " + k + ", " + v + " in {only: " + iterVal + "} {")
 		} else {
 			// string iteration: index (int) and char — declare kinds accordingly
 			g.cur().vars[len(g.cur().vars)-2].kind = KInt
